@@ -111,6 +111,8 @@ fn decoy_pre(api: &'static str) {
                     }
                 }
                 "take_action" | "preview+apply" => {
+                    // everything a client may have asked the decoy before the monitored state is stepped
+                    let _ = (d.valid_actions_no_rep(), d.valid_actions(), d.is_terminal(), d.has_move(d.piece_board()));
                     if let Some(a) = act {
                         let _ = d.trapped_animal_for_action(&a);
                         let _ = d.take_action(&a);
@@ -122,6 +124,9 @@ fn decoy_pre(api: &'static str) {
                 }
                 "GameState::to_string" => {
                     let _ = d.to_string();
+                }
+                "GameState::from_str" | "to_string of parsed" => {
+                    let _ = d.to_string().parse::<GameState>().map(|p| p.to_string());
                 }
                 "piece_board_for_step" | "previous_piece_boards" | "board views" | "getters" => {
                     if d.is_play_phase() {
